@@ -295,6 +295,46 @@ func initFlowRearmBody(n int) func() {
 	}
 }
 
+// invokeFlowRearmBody: an invoke flow is cancelled (what a reset does), cleared, and used again by the next
+// generation: every barrier of it waits for its arrivals again and returns nil after them.
+func invokeFlowRearmBody(k int) func() {
+	return func() {
+		f := core.NewInvokeFlowSynchronization()
+		r := &flowRec{arrived: map[string]int{}}
+		sched.Cur().Values["rec"] = r
+		cErr := fmt.Errorf("cancelled")
+		for round := 0; round < 2; round++ {
+			r.arrived = map[string]int{}
+			r.cancelBegun = false
+			f.InitializeBarriers()
+			if err := f.SetAgentsReadyCount(uint16(k)); err != nil {
+				r.failf("1", "flow-setcount", "round %d SetAgentsReadyCount(%d) refused: %v", round, k, err)
+			}
+			var ths []*sched.Thread
+			ths = append(ths, sched.Go("runtime", func() {
+				r.arrive("response", f.RuntimeResponse(nil))
+				r.arrive("runtimeReady", f.RuntimeReady(nil))
+			}))
+			for i := 0; i < k; i++ {
+				ths = append(ths, sched.Go(fmt.Sprintf("agent%d", i), func() {
+					r.arrive("agentReady", f.AgentReady())
+				}))
+			}
+			r.await("response", 1, f.AwaitRuntimeResponse(), cErr)
+			r.await("runtimeReady", 1, f.AwaitRuntimeReady(), cErr)
+			r.await("agentReady", k, f.AwaitAgentsReady(), cErr)
+			for _, t := range ths {
+				sched.Join(t)
+			}
+			if round == 0 {
+				f.CancelWithError(cErr)
+				f.Clear()
+			}
+		}
+		sched.Finish()
+	}
+}
+
 func flowScenarios(tier string) []hx.Scenario {
 	b := 2
 	if tier == "thorough" {
@@ -315,6 +355,7 @@ func flowScenarios(tier string) []hx.Scenario {
 		add(fmt.Sprintf("initflow/agents=%d/cancel", n), initFlowBody(n, true), b)
 		if n <= 2 {
 			add(fmt.Sprintf("initflow/agents=%d/round,cancel,clear,round", n), initFlowRearmBody(n), 1)
+			add(fmt.Sprintf("invokeflow/agents=%d/round,cancel,clear,round", n), invokeFlowRearmBody(n), 1)
 		}
 		add(fmt.Sprintf("invokeflow/agents=%d/rounds=2", n), invokeFlowBody(n, 2, false), b)
 		add(fmt.Sprintf("invokeflow/agents=%d/rounds=2/cancel", n), invokeFlowBody(n, 2, true), b)
